@@ -51,9 +51,10 @@ def res_split_carry(rng):
     ops.append("res new 6 %d" % cap)
     for _ in range(rng.choice([0, 0, 0, 1, 3])):
         ops.append("res add 6 %d %d" % (rng.randrange(1000000), next(nid)))
-    ops.append("res mergefailed 6 %d" % rng.choice([4, 5]))
-    if rng.random() < 0.3:
-        ops.append("res mergefailed 6 %d" % rng.choice([4, 5]))
+    first = rng.choice([4, 5])
+    ops.append("res mergefailed 6 %d" % first)
+    if rng.random() < 0.6:            # the other half fails too and is handed back into the same reservoir
+        ops.append("res mergefailed 6 %d" % (9 - first))
     for _ in range(rng.randint(cap // 2, cap + 10)):
         ops.append("res add 6 %d %d" % (rng.randrange(1000000), next(nid)))
     return ops
